@@ -46,6 +46,10 @@ func dischargeBounds(p *engine.Program, u engine.Unproven) (ok bool, reason stri
 	if why := readyGuardIdiom(p, u); why != "" {
 		return true, why
 	}
+	// I8 x[:k+c] where k counts down from len(x)
+	if why := descendingCounterIdiom(p, u); why != "" {
+		return true, why
+	}
 	// I7 constant slice of a buffer just made with len = len(x) + c
 	if why := madeBufferIdiom(p, u); why != "" {
 		return true, why
@@ -522,4 +526,93 @@ func madeBufferIdiom(p *engine.Program, u engine.Unproven) string {
 		return fmt.Sprintf("I7 the buffer was just made with length len(x)+%d, so the constant bounds [%d:%d] are within it (barring integer overflow of the length, which no allocation can reach)", c, lo, hi)
 	}
 	return ""
+}
+
+// descendingCounterIdiom (I8): x[:k+c1] where k is a loop counter that starts at len(x)+c0
+// (c0+c1 <= 0), is only ever decremented by one, and is decremented only where a dominating test
+// has established k+c1 > 0 — so 0 <= k+c1 <= len(x) wherever the slice is taken.
+func descendingCounterIdiom(p *engine.Program, u engine.Unproven) string {
+	se, ok := u.Expr.(*ast.SliceExpr)
+	if !ok || se.Low != nil || se.High == nil {
+		return ""
+	}
+	in := ssaAt(u.Fn, se.Lbrack)
+	sl, ok := in.(*ssa.Slice)
+	if !ok || sl.High == nil {
+		return ""
+	}
+	// High = phi (+ c1)
+	c1 := int64(0)
+	var ph *ssa.Phi
+	switch h := sl.High.(type) {
+	case *ssa.Phi:
+		ph = h
+	case *ssa.BinOp:
+		k, isC := engine.ConstInt(h.Y)
+		pp, isP := h.X.(*ssa.Phi)
+		if !isC || !isP || (h.Op != token.ADD && h.Op != token.SUB) {
+			return ""
+		}
+		if h.Op == token.SUB {
+			k = -k
+		}
+		c1, ph = k, pp
+	default:
+		return ""
+	}
+	// edges: one initial len(x)+c0, the others ph-1 (possibly through another phi of the same kind)
+	isLenOfX := func(v ssa.Value) (int64, bool) {
+		c0 := int64(0)
+		if bo, isB := v.(*ssa.BinOp); isB && (bo.Op == token.ADD || bo.Op == token.SUB) {
+			k, isC := engine.ConstInt(bo.Y)
+			if !isC {
+				return 0, false
+			}
+			if bo.Op == token.SUB {
+				k = -k
+			}
+			c0, v = k, bo.X
+		}
+		c, isCall := v.(*ssa.Call)
+		if !isCall {
+			return 0, false
+		}
+		bi, isBi := c.Common().Value.(*ssa.Builtin)
+		if !isBi || bi.Name() != "len" || engine.Unwrap(c.Common().Args[0]) != engine.Unwrap(sl.X) {
+			return 0, false
+		}
+		return c0, true
+	}
+	var decs []ssa.Instruction
+	nInit := 0
+	for _, e := range ph.Edges {
+		if c0, isL := isLenOfX(e); isL {
+			if c0+c1 > 0 {
+				return ""
+			}
+			nInit++
+			continue
+		}
+		bo, isB := e.(*ssa.BinOp)
+		if !isB || bo.Op != token.SUB || bo.X != ssa.Value(ph) {
+			return ""
+		}
+		if k, isC := engine.ConstInt(bo.Y); !isC || k != 1 {
+			return ""
+		}
+		decs = append(decs, bo)
+	}
+	if nInit != 1 || len(decs) == 0 {
+		return ""
+	}
+	// every decrement is reachable only where k + c1 > 0 was established: k > -c1
+	holds, _ := engine.IntCmpEdges(u.Fn, func(v ssa.Value) bool { return v == ssa.Value(ph) }, 0, token.GTR, -c1)
+	if len(holds) == 0 {
+		return ""
+	}
+	cut := engine.EdgeSet{}.Add(holds...)
+	if engine.Reach(u.Fn, nil, cut, nil, func(x ssa.Instruction) bool { return isOneOf(x, decs) }) != nil {
+		return ""
+	}
+	return fmt.Sprintf("I8 the upper bound is a counter that starts at len(x)%+d, is only decremented by one, and only after a test established counter%+d > 0", -c1+0, c1)
 }
